@@ -41,6 +41,8 @@ ASSUMPTIONS = ["leaf conditions are stubs whose neg() toggles their truth value 
                "only merged (ShortCircuitBlock) conditions are judged; the negation of single conditions is counted only",
                "the writer is driven per node: visit_node is stubbed so that nested nodes are not printed; contexts are "
                "set directly (loop_follow stack, follow['if'], next_case) instead of arising from loops/switches",
+               "decoy history: before every judged graph a different 2-condition chain with the same node names is "
+               "restructured and printed in the same process, results ignored",
                "visit_short_circuit_condition mutates cond1 when isnot, so printing one condition twice reads differently; "
                "the writer prints each once; every case prints on a freshly built graph"]
 MANIFEST = {
@@ -280,6 +282,17 @@ def restructure(k, edges, pre=False, stmt=None):
     return g, conds, exits, node_map
 
 
+def _decoy():
+    """Decoy history: a DIFFERENT chain using the same node names (c0, c1, X, Y) and letters goes through the same calls
+    first, results ignored -- state carried from one graph to the next inside the process (a cache keyed by name)
+    then shows up as a violation that also reproduces in the fresh-process replay."""
+    from androguard.decompiler.writer import Writer
+    g, _c, _e, _m = restructure(2, [[1, "X"], ["Y", "X"]])
+    for node in g.nodes:
+        if node.type.is_cond:
+            node.visit_cond(Writer(g, None))
+
+
 def leaves(node):
     """Original CondBlocks merged into `node`, left to right."""
     cond = getattr(node, "cond", None)
@@ -411,6 +424,7 @@ def print_condition(g, node, ctx, other):
 
 def judge_graph(k, edges, acc=None):
     """All merged nodes x all contexts x all assignments of one chain graph.  Returns list of (key, message)."""
+    _decoy()
     g0, conds0, _ex, _nm = restructure(k, edges)
     merged_names = [n.name for n in g0.nodes if getattr(n, "cond", None) is not None]
     singles = [n for n in g0.nodes if n.type.is_cond and getattr(n, "cond", None) is None]
@@ -491,6 +505,7 @@ def judge_walk(k, edges, pre, acc=None):
     branches reach; a walk that never leaves in the original must not leave in the restructured graph either.
     Returns (key suffix, message) or None."""
     from androguard.decompiler.writer import Writer
+    _decoy()
     limit = 4 * k + 8
     variant = "preheader" if pre else "entry-is-head"
     shp = shape_of(k, edges)
@@ -595,6 +610,7 @@ def judge_stmt(k, edges, st, acc=None):
     """Execution equivalence over the whole graph: for every truth assignment the sequence of executions of S (first
     MAX_S of them) and the exit reached must be the same in the restructured graph as in the original."""
     from androguard.decompiler.writer import Writer
+    _decoy()
     limit = 8 * (k + 2)
     back = any(t == 0 for p in edges for t in p) or st == 0
     key = "walk+stmt:%s" % ("back-edge-to-entry" if back else "entry-not-a-target")
